@@ -31,8 +31,10 @@ type Contract struct {
 	Results   []string
 	Requires  []Clause
 	Ensures   []Clause
+	OnPanic   []Clause // what holds of the state when the function panics (assumed at call sites; trusted contracts only)
 	Assumed   []Clause // clauses callers may use but the body is not checked against (listed as assumptions)
 	PanicsIff *Clause
+	PanicTyp  CExpr    // dynamic type id of the value this function panics with (optional)
 	PanicsIf  []Clause // one direction: condition implies panic (the function may also panic otherwise)
 	MayPanic  bool
 	Modifies  []CExpr
@@ -98,11 +100,11 @@ func NewContractSet() *ContractSet {
 	return &ContractSet{Funcs: map[string]*Contract{}, Globals: map[string][]*GlobalSpec{}, Pure: map[string]bool{}, Defs: map[string]*Def{}}
 }
 
-var keywords = map[string]bool{"func": true, "global": true, "requires": true, "ensures": true, "ensures_assumed": true, "uses": true, "pow10_max": true, "panics_iff": true, "panics_if": true, "define": true,
+var keywords = map[string]bool{"func": true, "global": true, "requires": true, "ensures": true, "ensures_assumed": true, "uses": true, "pow10_max": true, "panics_iff": true, "panics_if": true, "panic_typ": true, "on_panic": true, "define": true,
 	"may_panic": true, "modifies": true, "loop": true, "props": true, "trusted": true, "inline": true, "let": true,
 	"lemma": true, "pure": true, "package": true, "var": true, "hyp": true, "concl": true, "assert": true, "end": true}
 
-var funcHdr = regexp.MustCompile(`^func\s+(\([^)]*\)\.)?([A-Za-z0-9_$\[\],./\-]+)\s*\(([^)]*)\)\s*(.*)$`)
+var funcHdr = regexp.MustCompile(`^func\s+(\([^)]*\)\.)?([A-Za-z0-9_$#\[\],./\-]+)\s*\(([^)]*)\)\s*(.*)$`)
 
 // qualify turns a contract-file target into the ssa.Function.String() form.
 func qualify(pkg, recv, name string) string {
@@ -305,6 +307,10 @@ func (cs *ContractSet) ParseContractText(file, pkg, text string, trusted bool) {
 				cur.Assumed = append(cur.Assumed, Clause{E: parse(rl.n, rest), Src: rest})
 			case "panics_iff":
 				cur.PanicsIff = &Clause{E: parse(rl.n, rest), Src: rest}
+			case "on_panic":
+				cur.OnPanic = append(cur.OnPanic, Clause{E: parse(rl.n, rest), Src: rest})
+			case "panic_typ":
+				cur.PanicTyp = parse(rl.n, rest)
 			case "panics_if":
 				cur.PanicsIf = append(cur.PanicsIf, Clause{E: parse(rl.n, rest), Src: rest})
 				cur.MayPanic = true
